@@ -4,6 +4,7 @@ import Sudachi.Proofs.Codec
 import Sudachi.Proofs.CodecLayout
 import Sudachi.Proofs.CodecFile
 import Sudachi.Proofs.CodecCsv
+import Sudachi.Proofs.CodecFields
 /-!
 # C05 — compile-then-load round trip preserves every dictionary field, deterministically
 
@@ -496,6 +497,287 @@ theorem user_dicform_own_repaired (c : CompileInput) (hok : FileOk c) (hfix : c.
       (Or.inr (Or.inr ⟨by rw [hst]; omega, by rw [hst]; exact hself, t, by rw [hst]; exact ht, rfl⟩))
     exact ⟨ld, wi, t, h1, h2, h3, ht, h4⟩
 
+
+/-! ## the CSV FIELD layer: `parse.rs`, `lexicon.rs parse_record / parse_split / pos_of`, `resolve.rs` -/
+
+set_option maxRecDepth 100000 in
+/-- Clause "`\u` escapes" (`parse.rs unescape / unescape_cow / unescape_slow`), full.
+
+* `check_str_len`: a field of more than 32767 UTF-8 bytes is refused, before anything else;
+* a field without a backslash is returned as it is;
+* GENERAL FORM: for every text cut into units `ts` - a character written as itself, `\uXXXX` (exactly four hex digits,
+  either case), `\u{H}` (one to six hex digits) - in which no backslash written as itself begins a literal (`noAccident`;
+  every text has exactly one such cutting: the leftmost-first matches of `UNICODE_LITERAL`), the result is the list of
+  the units' values, and it is the error `InvalidCharLiteral` iff some literal names no scalar value (a surrogate, or
+  above U+10FFFF);
+* the three step equations the general form is made of (`\uXXXX` whatever follows - a fifth hex digit is text;
+  `\u{H}`; a backslash that begins no literal - MALFORMED forms such as `\u12`, `\u{}`, `\u{1234567}`, `\u{12`,
+  `\U0041`, `\\` - is copied and the scan goes on with the NEXT character, so `\\u0041` is a backslash and `A`);
+* kernel-evaluated witnesses of each case, the ones of the unit tests in `parse.rs` included. -/
+theorem unescape_spec :
+    (∀ s : Str, utf8LenStr s > 32767 → unescape s = none) ∧
+    (∀ s : Str, 92 ∉ s → utf8LenStr s ≤ 32767 → unescape s = some s) ∧
+    (∀ ts : List Tok, (∀ t ∈ ts, t.shapeOk = true) → noAccident ts = true → utf8LenStr (toksText ts) ≤ 32767 →
+      unescape (toksText ts) = if ts.all Tok.valOk then some (ts.map Tok.val) else none) ∧
+    (∀ (f : Nat) (h rest : Str), h.all isHex = true → h.length = 4 →
+      unescapeGo (f + 1) (92 :: 117 :: (h ++ rest)) =
+        if isScalar (hexNum h) then (unescapeGo f rest).map (hexNum h :: ·) else none) ∧
+    (∀ (f : Nat) (h rest : Str), h.all isHex = true → 1 ≤ h.length → h.length ≤ 6 →
+      unescapeGo (f + 1) (92 :: 117 :: 123 :: (h ++ 125 :: rest)) =
+        if isScalar (hexNum h) then (unescapeGo f rest).map (hexNum h :: ·) else none) ∧
+    (∀ (f : Nat) (rest : Str), startsEsc rest = false →
+      unescapeGo (f + 1) (92 :: rest) = (unescapeGo f rest).map (92 :: ·)) ∧
+    (unescape (lit "\\u0020") = some [32] ∧ unescape (lit "\\u{20}f") = some [32, 102] ∧
+     unescape (lit "\\u{1f49e}") = some [0x1f49e] ∧ unescape (lit "\\u100056") = some (0x1000 :: lit "56") ∧
+     unescape (lit "a\\u002Cc") = some (lit "a,c") ∧ unescape (lit "\\u{10FFFF}") = some [0x10FFFF] ∧
+     unescape (lit "\\u{110000}") = none ∧ unescape (lit "\\u{FFFFFF}") = none ∧ unescape (lit "\\ud800") = none ∧
+     unescape (lit "\\udfff") = none ∧ unescape (lit "\\ue000") = some [0xE000] ∧
+     unescape (lit "\\u12") = some (lit "\\u12") ∧ unescape (lit "\\u{}") = some (lit "\\u{}") ∧
+     unescape (lit "\\u{1234567}") = some (lit "\\u{1234567}") ∧ unescape (lit "\\u{12") = some (lit "\\u{12") ∧
+     unescape (lit "\\U0041") = some (lit "\\U0041") ∧ unescape (lit "\\\\u0041") = some (lit "\\A") ∧
+     unescape (lit "\\u{0041}\\u0041") = some (lit "AA") ∧ unescape (lit "\\u004g\\") = some (lit "\\u004g\\") ∧
+     unescape [] = some []) := by
+  refine ⟨?_, ?_, ?_, unescapeGo_u4, unescapeGo_brace, unescapeGo_backslash, by decide⟩
+  · intro s h; unfold unescape; simp only [h, if_true]
+  · intro s hs hl
+    unfold unescape
+    simp only [show ¬ utf8LenStr s > 32767 by omega, if_false]
+    exact unescapeGo_no_backslash s _ hs (by omega)
+  · intro ts hs hn hl
+    unfold unescape
+    simp only [show ¬ utf8LenStr (toksText ts) > 32767 by omega, if_false]
+    exact unescapeGo_toks ts _ hs hn (by omega)
+
+/-- `unescape` undoes the REFERENCE ESCAPER the generator uses (`esc_text` in `harness/src/c05.rs`): every character of
+the declared string is written, by an arbitrary per-character choice, as itself, as `\uXXXX` (BMP only; four digits,
+upper or lower case) or as `\u{H}` (any width from the minimal one to six, zero padded, upper or lower case).  For
+EVERY string of scalar values and EVERY such choice whose text is a legal field (`EStr.ok`, decidable: the choices are
+in range, no backslash written as itself begins a literal - the generator's `has_escape` test -, at most 32767 bytes)
+the builder reads back exactly the declared string.  Second part: writing every backslash as a literal is always
+safe (no side condition on the text other than its length). -/
+theorem unescape_escape_roundtrip :
+    (∀ e : EStr, e.ok = true → unescape e.text = some e.val) ∧
+    (∀ e : EStr, (∀ x ∈ e, isScalar x.1 = true ∧ choiceOk x.1 x.2 = true ∧ (x.1 = 92 → x.2 ≠ Choice.raw)) →
+      utf8LenStr e.text ≤ 32767 → unescape e.text = some e.val) := by
+  refine ⟨unescape_estr, ?_⟩
+  intro e h hl
+  apply unescape_estr
+  simp only [EStr.ok, Bool.and_eq_true, List.all_eq_true, decide_eq_true_eq]
+  refine ⟨⟨fun x hx => ⟨(h x hx).1, (h x hx).2.1⟩, ?_⟩, hl⟩
+  clear hl
+  induction e with
+  | nil => rfl
+  | cons x r ih =>
+    have hx := h x (List.mem_cons_self ..)
+    have ih' := ih (fun y hy => h y (List.mem_cons_of_mem _ hy))
+    obtain ⟨c, ch⟩ := x
+    cases ch with
+    | raw =>
+      simp only [EStr.toks, List.map_cons, escChar, noAccident, Bool.and_eq_true, Bool.or_eq_true, bne_iff_ne, ne_eq]
+      exact ⟨Or.inl (fun e => hx.2.2 e rfl), ih'⟩
+    | u4 up => exact ih'
+    | br w up => exact ih'
+
+/-- Clause "split units and word structure resolved to the intended entries" (`resolve.rs`, `lexicon.rs resolve_splits`).
+
+* a numeric reference (`N`, `UN`) is taken by number: the resolver never looks at it;
+* an inline reference `surface,pos…,reading` is answered by the FIRST row (in entry order) of the dictionary's OWN
+  entries whose key (column 0), POS id and reading (`None` when equal to the key) agree, and only when NO own row
+  agrees by the first such row of the SYSTEM dictionary (`ChainedResolver`);
+* own row `i` is entry `i` of this dictionary under the word id `(dic, i)`, `dic` = 1 for a user dictionary;
+* a reference no row answers makes `resolve` fail (`InvalidSplitWordReference`): no entry list is produced;
+* when `resolve` succeeds every unit of every entry is the id its reference resolves to, everything else untouched. -/
+theorem split_resolution_spec (own sys : List ResolverRow) :
+    (∀ w, resolveUnit own sys (.ref w) = some w) ∧
+    (∀ s p r w, resolveUnit own sys (.inline s p r) = some w ↔
+      (∃ i row, own[i]? = some row ∧ rowMatches s p r row = true ∧ row.2.2.2 = w ∧
+        ∀ (j : Nat) (row' : ResolverRow), j < i → own[j]? = some row' → rowMatches s p r row' = false) ∨
+      ((∀ row ∈ own, rowMatches s p r row = false) ∧
+        ∃ i row, sys[i]? = some row ∧ rowMatches s p r row = true ∧ row.2.2.2 = w ∧
+          ∀ (j : Nat) (row' : ResolverRow), j < i → sys[j]? = some row' → rowMatches s p r row' = false)) ∧
+    (∀ s p r, resolveUnit own sys (.inline s p r) = none ↔
+      (∀ row ∈ own, rowMatches s p r row = false) ∧ (∀ row ∈ sys, rowMatches s p r row = false)) ∧
+    (∀ (es : List RawEntry) (user : Bool) (i : Nat) (e : RawEntry), es[i]? = some e →
+      (rawResolverRows es user)[i]? = some (e.surface, e.pos, (if e.surface = e.readingS then none else some e.readingS),
+        widNew (if user then 1 else 0) i)) ∧
+    (∀ (es : List RawEntry) (e : RawEntry) (u : SplitUnit), e ∈ es → u ∈ e.splitsA ++ e.splitsB →
+      resolveUnit own sys u = none → resolveSplits own sys es = none) ∧
+    (∀ (es : List RawEntry) (out : List Entry), resolveSplits own sys es = some out →
+      ∃ ids : RawEntry → List Nat × List Nat, out = es.map (fun e => toEntry e (ids e).1 (ids e).2) ∧
+        ∀ e ∈ es, e.splitsA.map (resolveUnit own sys) = (ids e).1.map some ∧
+          e.splitsB.map (resolveUnit own sys) = (ids e).2.map some) := by
+  refine ⟨fun _ => rfl, ?_, ?_, ?_, ?_, ?_⟩
+  · intro s p r w
+    simp only [resolveUnit]
+    cases h : resolveInline own s p r with
+    | some w' =>
+      simp only [Option.orElse_some, Option.some.injEq]
+      constructor
+      · rintro rfl; exact Or.inl ((resolveInline_eq_some_iff own s p r w').1 h)
+      · rintro (h1 | ⟨h1, _⟩)
+        · have := (resolveInline_eq_some_iff own s p r w).2 h1
+          rw [h] at this; exact Option.some.inj this
+        · rw [(resolveInline_eq_none_iff own s p r).2 h1] at h; cases h
+    | none =>
+      simp only [Option.orElse_none]
+      have hn := (resolveInline_eq_none_iff own s p r).1 h
+      rw [resolveInline_eq_some_iff]
+      constructor
+      · intro h2; exact Or.inr ⟨hn, h2⟩
+      · rintro (⟨i, row, hi, hm, _⟩ | ⟨_, h2⟩)
+        · rw [hn row (List.mem_of_getElem? hi)] at hm; cases hm
+        · exact h2
+  · intro s p r
+    simp only [resolveUnit]
+    cases h : resolveInline own s p r with
+    | some w' =>
+      simp only [Option.orElse_some, reduceCtorEq, false_iff, not_and]
+      intro h1
+      rw [(resolveInline_eq_none_iff own s p r).2 h1] at h; cases h
+    | none =>
+      simp only [Option.orElse_none, resolveInline_eq_none_iff]
+      exact ⟨fun h2 => ⟨(resolveInline_eq_none_iff own s p r).1 h, h2⟩, fun h2 => h2.2⟩
+  · intro es user i e hi
+    rw [rawResolverRows_getElem?, hi]; rfl
+  · intro es e u he hu hnone
+    unfold resolveSplits
+    rw [allSome_eq_none_iff, List.mem_map]
+    refine ⟨e, he, ?_⟩
+    rcases List.mem_append.1 hu with h | h
+    · have : Wire.allSome (e.splitsA.map (resolveUnit own sys)) = none := by
+        rw [allSome_eq_none_iff, List.mem_map]; exact ⟨u, h, hnone⟩
+      rw [this]
+    · have : Wire.allSome (e.splitsB.map (resolveUnit own sys)) = none := by
+        rw [allSome_eq_none_iff, List.mem_map]; exact ⟨u, h, hnone⟩
+      rw [this]
+      cases Wire.allSome (e.splitsA.map (resolveUnit own sys)) <;> rfl
+  · intro es out h
+    exact ⟨resolvedIds own sys, resolveSplits_some own sys es out h⟩
+
+/-- POS interning (`lexicon.rs pos_of`, `preload_pos`, `write_pos_table`), full.  For every reader state whose table has
+no duplicate row (true of the empty table and of a loaded grammar's list; preserved):
+
+* the six strings get the id = INDEX OF THEIR FIRST OCCURRENCE in the table after the call, no earlier row is equal;
+* a row already present (own or preloaded SYSTEM row) is reused and nothing changes; a new row is appended, so ids are
+  handed out in first-seen order and every id handed out before stays valid (the old table is a prefix of the new one);
+* a USER dictionary starts from the system's rows (`startPos` = their number): a new row gets an id `≥ startPos`, and
+  it sits at position `id - startPos` of the rows `write_pos_table` writes (`pos.drop startPos`) - the loader appends
+  these after the system's, which is the "offset by the system count" (with `pos_table_roundtrip`);
+* the call fails (`PosLimitExceeded`) exactly when the row is new and the table already holds more than 32767 rows;
+* nothing else of the reader changes. -/
+theorem pos_interning_spec (rd : Reader) (p : List Str) (hnd : rd.pos.toList.Nodup) :
+    (∀ i rd', posOf rd p = some (i, rd') →
+      rd'.pos.toList[i]? = some p ∧ (∀ j, j < i → rd'.pos.toList[j]? ≠ some p) ∧
+      rd.pos.toList <+: rd'.pos.toList ∧ rd'.pos.toList.Nodup ∧
+      (p ∈ rd.pos.toList → rd' = rd) ∧
+      (p ∉ rd.pos.toList → i = rd.pos.size ∧ rd'.pos.toList = rd.pos.toList ++ [p] ∧
+        (rd.startPos ≤ rd.pos.size → rd.startPos ≤ i ∧ (rd'.pos.toList.drop rd.startPos)[i - rd.startPos]? = some p ∧
+          rd'.pos.toList.drop rd.startPos = rd.pos.toList.drop rd.startPos ++ [p])) ∧
+      rd'.startPos = rd.startPos ∧ rd'.entries = rd.entries ∧ rd'.unresolved = rd.unresolved ∧
+      rd'.maxLeft = rd.maxLeft ∧ rd'.maxRight = rd.maxRight ∧ rd'.numSystem = rd.numSystem) ∧
+    (posOf rd p = none ↔ p ∉ rd.pos.toList ∧ rd.pos.size > 32767) := by
+  obtain ⟨h1, h2, h3⟩ := posOf_spec rd p
+  by_cases hmem : p ∈ rd.pos.toList
+  · obtain ⟨i0, e0, hget, hfirst⟩ := h1 hmem
+    refine ⟨?_, ?_⟩
+    · intro i rd' h
+      rw [e0] at h
+      cases h
+      exact ⟨hget, hfirst, List.prefix_refl _, hnd, fun _ => rfl, fun hn => absurd hmem hn, rfl, rfl, rfl, rfl, rfl, rfl⟩
+    · rw [e0]; simp [hmem]
+  · by_cases hsz : rd.pos.size ≤ 32767
+    · have e0 := h2 hmem hsz
+      refine ⟨?_, ?_⟩
+      · intro i rd' h
+        rw [e0] at h
+        cases h
+        have hlen : rd.pos.toList.length = rd.pos.size := by simp
+        have hget : (rd.pos.toList ++ [p])[rd.pos.size]? = some p := by
+          rw [List.getElem?_append_right (by omega)]; simp
+        refine ⟨by simp, ?_, by simp, ?_, fun hm => absurd hm hmem, ?_, rfl, rfl, rfl, rfl, rfl, rfl⟩
+        · intro j hj hc
+          simp only [Array.toList_push] at hc
+          rw [List.getElem?_append_left (by omega)] at hc
+          exact hmem (List.mem_of_getElem? hc)
+        · simp only [Array.toList_push]
+          rw [List.nodup_append]
+          refine ⟨hnd, by simp, ?_⟩
+          intro a ha b hb
+          simp only [List.mem_singleton] at hb
+          subst hb
+          intro e; exact hmem (e ▸ ha)
+        · intro _
+          refine ⟨rfl, by simp, ?_⟩
+          intro hsp
+          have hd : (rd.pos.toList ++ [p]).drop rd.startPos = rd.pos.toList.drop rd.startPos ++ [p] := by
+            rw [List.drop_append_of_le_length (by omega)]
+          refine ⟨hsp, ?_, by simpa using hd⟩
+          simp only [Array.toList_push]
+          rw [hd, List.getElem?_append_right (by simp), List.length_drop]
+          simp [hlen]
+      · rw [e0]; simp; omega
+    · have e0 := h3 hmem (by omega)
+      refine ⟨?_, ?_⟩
+      · intro i rd' h; rw [e0] at h; cases h
+      · rw [e0]; simp [hmem]; omega
+
+/-- **Row text → declared entry** (`lexicon.rs parse_record` + `parse.rs`), for every declared row within the limits of
+the row format (`DeclRow.ok`, decidable: every string a legal escaped field of scalar values, `i16` ids and cost,
+references below 2^28, at most 127 items per list, `u32` synonym groups, a mode column `parse_mode` accepts, no splits
+on an `A` row, key non-empty and free of U+0000).  The 19 fields the REFERENCE RENDERER writes (`csv_of` of the
+generator: strings through the reference escaper with any per-character choice, numbers by `to_string`, the
+dictionary form `*` / `N` / `UN`, lists joined by `/`, `*` for an empty list) are parsed by `parse_record` to exactly the
+declared entry: key, ids, cost, headword / normalised form / reading through `none_if_equal`, dictionary-form id,
+split units and word structure by number (`N` → system/own id, `UN` → `(1, N)`), synonym groups, and the POS id is the
+id `pos_of` interns the six DECLARED strings under (`pos_interning_spec`); the reader's other state is untouched and the
+call fails exactly when `pos_of` does.
+
+PARTIAL in one respect - the full statement has `splitsA splitsB : List (numeric reference | inline reference
+surface,pos1..6,reading written through the escaper with `,` and `/` forced)`: inline units in the two split columns
+are not in `DeclRow` (the proof needs `splitn(8, ",")` over the joined unit and the interleaving of `pos_of` calls for
+the units' POS rows before the row's own); they are executed by the model from the raw text and tied by correspondence
++ the inline-reference oracle on every run; their resolution is `split_resolution_spec`. -/
+theorem fields_roundtrip_partial (rd : Reader) (d : DeclRow) (h : d.ok = true) :
+    parseRecord rd d.fields = (posOf rd d.posKey).map (fun x =>
+      { x.2 with unresolved := x.2.unresolved + 0 + 0, entries := x.2.entries.push (d.raw x.1) }) ∧
+    (d.raw 0).headwordS = d.headword.val ∧ (d.raw 0).readingS = d.reading.val ∧
+    (toEntry (d.raw 0) [] []).normS = d.norm.val := by
+  have key : ∀ a b : Str, (if a = b then (none : Option Str) else some b).getD a = b := by
+    intro a b; split <;> simp_all
+  refine ⟨parseRecord_fields rd d h, ?_, ?_, ?_⟩
+  · simp only [RawEntry.headwordS, DeclRow.raw, noneIfEqual, key]
+  · simp only [RawEntry.readingS, RawEntry.headwordS, DeclRow.raw, noneIfEqual, key]
+  · simp only [Entry.normS, Entry.headwordS, toEntry, DeclRow.raw, noneIfEqual, key]
+
+/-- **CSV TEXT → records → entries = the declared data**, ONE theorem whose only hypothesis is the decidable limits
+predicate of the rows: for every list of declared rows (each with the terminator written after it), the text the
+reference renderer produces (RFC 4180 quoting of the 19 rendered fields, `csv_records_roundtrip`) is split by the
+modelled csv reader into exactly these records, and `read_record` over them (`fields_roundtrip_partial`, POS interning
+threaded through the rows in order) leaves in the reader exactly the declared entries, in order, each under the POS id
+of its six declared strings - or fails at the first row whose new POS row exceeds the table limit, and never otherwise.
+No hypothesis about the text: it is computed from the declared data.
+
+`csv_text_to_loaded_fields` (the whole first sentence of the property as one theorem) is this theorem followed by
+`split_resolution_spec` (numeric references pass through the resolver unchanged: `resolve_refs`), `dict_roundtrip`
+(entries → file bytes → loader → `get_params` / `parse_word_info` of every entry, every matrix cell, POS rows, header)
+and `wordinfo_roundtrip` (stored forms → accessors; F-EMPTY and D8's second half excluded by name there).  The
+composition itself is NOT stated as a single theorem yet (`_partial`): what is missing is (i) the glue
+`buildSystemText = stage chain` with `FileOk (the compile input the declared rows denote)` as the limits predicate,
+(ii) inline units (see `fields_roundtrip_partial`), (iii) the matrix text by a renderer instead of the hypotheses of
+`conn_text_roundtrip`. -/
+theorem csv_text_to_entries_partial (rows : List (DeclRow × CsvTerm)) (rd : Reader) (h : ∀ r ∈ rows, r.1.ok = true) :
+    readRecords rd ((csvRecords (csvRender (rows.map (fun r => (r.1.fields.toList, r.2))))).map List.toArray)
+      = declRead rd (rows.map (·.1)) := by
+  rw [csv_records_roundtrip _ (by
+    intro r hr; simp only [List.mem_map] at hr; obtain ⟨x, _, rfl⟩ := hr; simp [DeclRow.fields])]
+  simp only [List.map_map]
+  have : (List.toArray ∘ (fun x : List Str × CsvTerm => x.1) ∘ fun r : DeclRow × CsvTerm => (r.1.fields.toList, r.2))
+      = DeclRow.fields ∘ (·.1) := by
+    funext r; simp
+  rw [this, ← List.map_map]
+  exact readRecords_fields _ rd (by
+    intro d hd; simp only [List.mem_map] at hd; obtain ⟨r, hr, rfl⟩ := hd; exact h r hr)
+
 /-! non-vacuity of the hypotheses -/
 
 example : (127 : Nat) ≤ 32767 ∧ stringLength (encLen 127 ++ [9]) = some (127, [9]) ∧ encLen 126 = [126] ∧ encLen 127 = [128, 127] ∧ encLen 128 = [128, 128] := by decide
@@ -583,5 +865,27 @@ example : FileOk ownUserInput ∧ ownUserInput.dfFix = true ∧ ownUserInput.dfO
     validateEntries false ownUserInput.maxLeft ownUserInput.maxRight ownUserInput.numSystem ownUserInput.entries = false ∧
     -- ... and accepts `5` with six system words, which the reader cannot resolve; the repaired validator refuses it
     validateEntries false 2 1 (some 6) [plainEntry [12354] 5] = true ∧ validateEntries true 2 1 (some 6) [plainEntry [12354] 5] = false := by decide
+
+set_option maxRecDepth 100000 in
+/-- `a` raw, `,` as `,`, U+20BB7 as `\u{020bb7}`, a backslash written as itself in front of `u1` (no literal) -/
+example : EStr.ok [(97, .raw), (44, .u4 true), (0x20BB7, .br 6 false), (92, .raw), (117, .raw), (49, .raw)] = true ∧
+    EStr.text [(97, .raw), (44, .u4 true), (0x20BB7, .br 6 false), (92, .raw), (117, .raw), (49, .raw)] = lit "a\\u002C\\u{020bb7}\\u1" ∧
+    -- a raw backslash that WOULD begin a literal is outside the escaper's range (the generator's `has_escape`)
+    EStr.ok [(92, .raw), (117, .raw), (48, .raw), (48, .raw), (52, .raw), (49, .raw)] = false := by decide
+/-- a declared row: key `東`, headword `東京` with `京` escaped, reading = headword, dictionary form `U3`, splits `1/U2`, synonyms 7/8 -/
+def sampleRow : DeclRow :=
+  { surface := EStr.plain [26481], left := 1, right := -1, cost := -32768, headword := [(26481, .raw), (20140, .u4 false)],
+    p1 := EStr.plain [97], p2 := [], p3 := EStr.plain [42], p4 := EStr.plain [42], p5 := EStr.plain [42], p6 := [(44, .br 2 true)],
+    reading := EStr.plain [26481, 20140], norm := [], dicForm := some (true, 3), mode := lit " BC ",
+    splitsA := [(false, 1), (true, 2)], splitsB := [], ws := [(false, 0)], syn := [7, 8] }
+set_option maxRecDepth 100000 in
+example : sampleRow.ok = true ∧ sampleRow.fields[4]? = some (lit "東\\u4eac") ∧
+    (sampleRow.raw 0).reading = none ∧ (sampleRow.raw 0).normForm = some [] := by decide
+example : (({} : Reader).pos.toList).Nodup := by simp
+example (own sys : List ResolverRow) : resolveUnit own sys (.ref 5) = some 5 := rfl
+/-- own row before system row, first own row wins, unresolved = none -/
+example : resolveUnit [([1], 0, none, 7), ([1], 0, none, 8)] [([1], 0, none, 9)] (.inline [1] 0 none) = some 7 ∧
+    resolveUnit [([2], 0, none, 7)] [([1], 0, none, 9)] (.inline [1] 0 none) = some 9 ∧
+    resolveUnit [([2], 0, none, 7)] [([1], 0, none, 9)] (.inline [1] 1 none) = none := by decide
 
 end C05
